@@ -142,6 +142,27 @@ pub fn gen_case(t: &mut Tape) -> Case {
             cc: None,
         }],
     });
+    // the same name in the signatures of a virtual function (resolved by the vftable code, not the impl code)
+    prog.mods[obs].items.push(Item::Type(TypeDef {
+        vis: true,
+        name: "ObsV".into(),
+        vft: Some(Vft {
+            size: None,
+            funcs: vec![Func {
+                more: vec![],
+                sty: 0,
+                vis: true,
+                name: "vf".into(),
+                doc: vec![],
+                args: vec![Arg::ConstSelf, Arg::Named("a".into(), Ty::Named(name.clone())), Arg::Named("b".into(), Ty::Named(name.clone()).mptr())],
+                ret: Some(Ty::Named(name.clone()).cptr()),
+                addr: None,
+                index: None,
+                cc: None,
+            }],
+        }),
+        ..Default::default()
+    }));
     prog.mods[obs].ext_vals.push(ExtVal {
         sty: 0,
         vis: true,
@@ -161,7 +182,7 @@ impl Prop for Scoping {
         "C11/scoping".into()
     }
     fn rule(&self) -> String {
-        "2-5 modules with paths of depth 1-3; the same short name (also a built-in's name) defined in several of them as packed types / extern types of pairwise distinct sizes; modules added in the given order (observer first) or shuffled; an observer module with an optional local definition (which may itself mention the name in pointer fields) and 0-5 interleaved `use path::Name` / `use path` imports (some dangling, some for a decoy). Oracle: reference binding (by-name import, last wins > built-in > same module > module imports in order) decides; the resolved size of `Obs` equals size(D)*3 + pointer width, and the emitted field, pointee, array element, parameter, return and extern-value types are exactly the fully qualified path of D (syn); no binding => Err. Non-trivial: >= 2 candidate definitions reachable through different rules".into()
+        "2-5 modules with paths of depth 1-3; the same short name (also a built-in's name) defined in several of them as packed types / extern types of pairwise distinct sizes; modules added in the given order (observer first) or shuffled; an observer module with an optional local definition (which may itself mention the name in pointer fields) and 0-5 interleaved `use path::Name` / `use path` imports (some dangling, some for a decoy). Oracle: reference binding (by-name import, last wins > built-in > same module > module imports in order) decides; the resolved size of `Obs` equals size(D)*3 + pointer width, and the emitted field, pointee, array element, parameter and return (impl function, virtual function slot and wrapper) and extern-value types are exactly the fully qualified path of D (syn); no binding => Err. Non-trivial: >= 2 candidate definitions reachable through different rules".into()
     }
     fn gen(&self, t: &mut Tape) -> Case {
         gen_case(t)
@@ -281,6 +302,23 @@ impl Prop for Scoping {
                                 }
                             }
                             None => problems.push("method m missing".into()),
+                        }
+                        // virtual function: the slot's fn-pointer type and the wrapper
+                        match v.strukt("ObsVVftable").and_then(|s| s.fields.iter().find(|f| f.name == "vf")).and_then(|f| f.fn_sig.clone()) {
+                            Some((args, ret)) => {
+                                if args.get(1) != Some(&want_ty) || args.get(2) != Some(&format!("*mut{want_ty}")) || ret.as_deref() != Some(format!("*const{want_ty}").as_str()) {
+                                    problems.push(format!("ObsVVftable.vf: parameters {:?} -> {:?}, expected (this, {want_ty}, *mut{want_ty}) -> *const{want_ty}", args, ret));
+                                }
+                            }
+                            None => problems.push("ObsVVftable.vf missing".into()),
+                        }
+                        match v.method("ObsV", "vf") {
+                            Some(mv) => {
+                                if mv.args.first().map(|a| a.1.clone()) != Some(want_ty.clone()) || mv.args.get(1).map(|a| a.1.clone()) != Some(format!("*mut{want_ty}")) || mv.ret.as_deref() != Some(format!("*const{want_ty}").as_str()) {
+                                    problems.push(format!("ObsV::vf: {:?} -> {:?}", mv.args, mv.ret));
+                                }
+                            }
+                            None => problems.push("method ObsV::vf missing".into()),
                         }
                         match v.free_fns.iter().find(|f| f.name == "get_gv") {
                             Some(fv) if fv.ret.as_deref() == Some(format!("&'staticmut{want_ty}").as_str()) => {}
